@@ -7,6 +7,7 @@ CONSTANTS
   MaxFuel <- MC_MaxFuel
   Placement <- MC_Placement
   Defects <- MC_Defects
+  IOModes <- MC_IOModes
 CHECK_DEADLOCK FALSE
 INVARIANTS
   ExactlyOnce Settled NoLostWakeup SpawnerGetsPid SpawnExactlyOnce
